@@ -194,6 +194,26 @@ class Engine:
                     content = gd.gen_include_file(g, gd.Ctx("edit", proj["docs"], [], [], proj["cfg"].get(
                         "enable_extensions", ()), "docutils", proj["inv_keys"], features))
                 ops.append({"op": "edit", "file": f, "content": content})
+        if o.random() < 0.2 and any("inventories" in c for c in configs.values()):
+            # an inventory file changes between two renders of one document with one long-lived renderer / settings
+            from ..gen import inventory as gi
+
+            cid = o.choice([c for c in cids if "inventories" in configs[c]])
+            doc = o.choice(docs)
+            key = sorted(configs[cid]["inventories"])[0]
+            proj["files"][doc] = proj["files"][doc].rstrip("\n") + f"\n\n<inv:{key}#index> <inv:{key}#foo> <inv:#Class>\n"
+            spec = gi.gen_spec(g, max_objects=4)
+            spec.update(version=2, project="edited2", pversion="2")
+            spec["lines"] += ["index std:label -1 moved.html#$ Moved Index"]
+            mid = sorted(mds)[0]
+            mds[mid] = cid
+            scen = [{"op": "mdit", "doc": doc, "md": mid, "cfg": cid},
+                    {"op": "edit", "file": "objects.inv", "content": {"hex": gi.serialise(spec)[0].hex()}},
+                    {"op": "mdit", "doc": doc, "md": mid, "cfg": cid},
+                    {"op": "dparse", "doc": doc, "cfg": cid, "reuse": None, "parser": None, "writer": None}]
+            ops = [x for x in ops if not (x["op"] == "mdit" and x.get("md") == mid)]  # the renderer belongs to cid now
+            at = o.randint(0, len(ops))
+            ops[at:at] = scen
         return {"engine": self.name, "files": proj["files"], "configs": configs, "settings_objs": settings_objs,
                 "ops": ops}
 
